@@ -200,6 +200,9 @@ class Statement(object):
         :param this_index: the index that this instruction occurs at
         """
         # TODO: implement detection of 5-bit offsets as an optimization
+        if not self.code_pkg.post_byte_choices:
+            raise TranslationError("a label can only be used as an offset with PCR", self)
+
         min_size = 0
         max_size = 0
         positive_range = True
